@@ -26,6 +26,8 @@ EXPLANATION = (
 )
 TECHNIQUE += '; interprocedural may-escape exception flow of write_input'
 EXPLANATION += ' Added: (R6) only FileFormatError and WriteInputError can leave api.write_input; _select_input_module fails with FileFormatError on every path.'
+TECHNIQUE += '; finite-domain evaluation of the field-dictionary code'
+EXPLANATION += " R3-R5 no longer match statement templates: the program-specific write_input and the prefix of write_input_base that builds the field dictionary are interpreted (iodalint.accessors) on abstract objects over a finite domain (7 charges, 7 spin polarisations, all run types in three spellings plus unsupported ones, absent / empty / given title, lot, basis; keyword arguments including 0 and ''), and the resulting fields are compared with the documented ones."
 TRUSTED = ["CPython ast parser", "int() truncates toward zero; round/np.round/np.rint round to nearest", "str.format(**fields) takes the last value stored under a key"]
 
 ROUNDERS = {"round", "rint", "around"}
@@ -168,134 +170,23 @@ def run(ctx):
                 ctx.violate("R2", f"{short}: coordinate format `{sp}` uses a grouping option", dal, rets[0], construct=f"format spec {sp}")
     ctx.floor("R2", nprog, 2, "input modules")
 
-    # ------------------------------------------------------------------ R3
+    # ------------------------------------------------------------------ R3 / R4 / R5
+    # decided by evaluating the two small functions that build the field dictionary (the program's write_input and the
+    # part of write_input_base before the geometry is rendered) over a finite domain of objects and keyword
+    # arguments (iodalint.accessors); no statement template is matched.
     ctx.rule("R3", "charge and multiplicity are rounded, not truncated", "a charge of 0.9999999 (derived from float electron counts) is written as 0")
-    cst = stores.get("charge")
-    if cst is None:
-        ctx.violate("R3", "no `charge` field", base, base.node, construct="charge field")
-    else:
-        v = cst.value
-        main = v.body if isinstance(v, ast.IfExp) else v
-        dflt = v.orelse if isinstance(v, ast.IfExp) else None
-        guard_ok = isinstance(v, ast.IfExp) and src_of(v.test) == f"{data}.charge is not None" and isinstance(dflt, ast.Constant) and dflt.value == 0
-        if _is_rounded_int(main) and f"{data}.charge" in src_of(main):
-            ctx.ok("R3", f"charge = {src_of(main)} (rounded)", f"{base.module.relpath}:{cst.lineno}")
-        else:
-            ctx.violate("R3", f"the charge field is `{src_of(main)}`: int() truncates toward zero instead of rounding to the nearest integer", base, cst)
-        if guard_ok:
-            ctx.ok("R3", "charge defaults to 0 when unknown", f"{base.module.relpath}:{cst.lineno}")
-        else:
-            ctx.violate("R3", "the charge field does not default to 0 when data.charge is None", base, cst, construct="charge default")
-    sst = stores.get("spinmult")
-    if sst is None:
-        ctx.violate("R3", "no `spinmult` field", base, base.node, construct="spinmult field")
-    else:
-        v = sst.value
-        main = v.body if isinstance(v, ast.IfExp) else v
-        okk = isinstance(main, ast.BinOp) and isinstance(main.op, ast.Add) and isinstance(main.right, ast.Constant) and main.right.value == 1 and _is_rounded_int(main.left) and f"{data}.spinpol" in src_of(main.left)
-        okd = isinstance(v, ast.IfExp) and src_of(v.test) == f"{data}.spinpol is not None" and isinstance(v.orelse, ast.Constant) and v.orelse.value == 1
-        if okk and okd:
-            ctx.ok("R3", f"spinmult = {src_of(main)} (rounded spin polarisation + 1; 1 when unknown)", f"{base.module.relpath}:{sst.lineno}")
-        else:
-            ctx.violate("R3", f"the multiplicity field is `{src_of(v)}`, expected round(|spinpol|) + 1 with default 1", base, sst)
+    ctx.rule("R4", "user-supplied fields and keyword arguments take precedence over defaults", "a user field is silently overwritten by a default, or a falsy user value is dropped")
+    ctx.rule("R5", "documented defaults and run-type keywords", "a run type is mapped to the wrong keyword, an unsupported one is silently written as a single point, or an absent value breaks rendering")
+    from .c19_semantics import check_field_semantics
 
-    # ------------------------------------------------------------------ R4
-    ctx.rule("R4", "user-supplied fields and keyword arguments take precedence over defaults", "a user field is silently overwritten by a default")
-    ui = [i for i, (k, n, _) in enumerate(order) if k == "update" and n == user]
-    if len(ui) != 1:
-        ctx.violate("R4", "write_input_base does not merge the user fields exactly once", base, base.node, construct="user fields update")
+    check_field_semantics(ctx, "R3", "R4", "R5")
+    # the merged dictionary is what gets formatted, after the geometry was added
+    pr = [i for i, (k, n, _) in enumerate(order) if k == "print"]
+    up = [i for i, (k, n, _) in enumerate(order) if k == "update" and n == user]
+    if len(pr) == 1 and len(up) == 1 and up[0] < pr[0]:
+        ctx.ok("R4", f"template.format(**{fields}) is rendered after the user fields were merged", f"{base.module.relpath}:{order[pr[0]][2].lineno}")
     else:
-        late = [n for i, (k, n, _) in enumerate(order) if k == "store" and i > ui[0] and n != "geometry"]
-        early = [n for i, (k, n, _) in enumerate(order) if k == "store" and i < ui[0]]
-        if late:
-            ctx.violate("R4", f"defaults {late} are assigned after the user fields were merged (they overwrite user input)", base, stores[late[0]])
-        else:
-            ctx.ok("R4", f"defaults {early} are assigned before fields.update({user})", f"{base.module.relpath}:{order[ui[0]][2].lineno}")
-    tst = stores.get("title")
-    if tst is not None and src_of(tst.value).startswith(f"{data}.title if {data}.title is not None else "):
-        ctx.ok("R4", "title: the object's title, else a default", f"{base.module.relpath}:{tst.lineno}")
-    else:
-        ctx.violate("R4", "the title field is not `data.title if data.title is not None else <default>`", base, tst or base.node, construct="title default" if tst is None else "")
-    for short, m in prog.input_modules().items():
-        wi = prog.func(f"{m.name}.write_input")
-        kw = wi.kwarg
-        # the dict passed as user_fields to the base
-        bcalls = [cs for cs in wi.calls if base in cs.callees]
-        if len(bcalls) != 1 or kw is None:
-            ctx.violate("R4", f"{short}.write_input does not call write_input_base exactly once with **kwargs support", wi, wi.node, construct="base call")
-            continue
-        b, e, okb = bind_call(bcalls[0].node, base)
-        fname = src_of(b[user]) if user in b else None
-        good_pass = all(isinstance(b.get(p), ast.Name) and b[p].id == q for p, q in ((fh, wi.posparams[0]), (data, wi.posparams[1]), (template, "template"), (atom_line, "atom_line")))
-        if not good_pass:
-            ctx.violate("R4", f"{short}.write_input does not pass (fh, data, template, atom_line) through to the base", wi, bcalls[0].node)
-        seq = []
-        for st in wi.body:
-            if isinstance(st, ast.Assign) and src_of(st.targets[0]) == fname and isinstance(st.value, ast.Dict):
-                seq.append(("defaults", st))
-            elif isinstance(st, ast.Assign) and isinstance(st.targets[0], ast.Subscript) and src_of(st.targets[0].value) == fname:
-                seq.append(("default1", st))
-            elif isinstance(st, ast.Expr) and isinstance(st.value, ast.Call) and src_of(st.value.func) == f"{fname}.update" and st.value.args and src_of(st.value.args[0]) == kw:
-                seq.append(("update", st))
-            elif isinstance(st, ast.Expr) and isinstance(st.value, ast.Call) and st.value is bcalls[0].node:
-                seq.append(("call", st))
-        kinds = [k for k, _ in seq]
-        if kinds.count("update") == 1 and "defaults" in kinds and kinds.index("update") > max(i for i, k in enumerate(kinds) if k in ("defaults", "default1")) and kinds.index("call") > kinds.index("update"):
-            ctx.ok("R4", f"{short}: fields.update(kwargs) after the program defaults, before rendering", f"{wi.module.relpath}:{seq[kinds.index('update')][1].lineno}")
-        else:
-            ctx.violate("R4", f"{short}.write_input does not merge **kwargs after its defaults (order {kinds})", wi, wi.node, construct=f"kwargs precedence {kinds}")
-        for pname in ("template", "atom_line"):
-            ass = [n for n in wi.own_nodes() if isinstance(n, ast.Assign) and src_of(n.targets[0]) == pname]
-            pm = prog.parents(wi)
-            bad = [a for a in ass if not (isinstance(pm.get(id(a)), ast.If) and src_of(pm[id(a)].test) == f"{pname} is None")]
-            if bad:
-                ctx.violate("R4", f"{short}: `{pname}` is overwritten although the caller supplied one", wi, bad[0])
-            elif ass:
-                ctx.ok("R4", f"{short}: default {pname} only when the argument is None", f"{wi.module.relpath}:{ass[0].lineno}", sample=False)
-
-    # ------------------------------------------------------------------ R5
-    ctx.rule("R5", "documented defaults and run-type keywords", "a run type is mapped to the wrong keyword or an absent value breaks rendering")
-    want_run = {"gaussian": GAUSSIAN_RUN, "orca": ORCA_RUN}
-    want_def = {"gaussian": {"lot": "hf", "obasis_name": "sto-3g"}, "orca": {"lot": "HF", "obasis_name": "STO-3G"}}
-    for short, m in prog.input_modules().items():
-        wi = prog.func(f"{m.name}.write_input")
-        d = wi.posparams[1]
-        dicts = [n for n in wi.own_nodes() if isinstance(n, ast.Assign) and isinstance(n.value, ast.Dict)]
-        table = None
-        defaults = None
-        for a in dicts:
-            try:
-                val = ce.eval_in_func(wi, a.value)
-            except NotConstant:
-                val = None
-            if isinstance(val, dict) and "energy" in val:
-                table = (a, val)
-            keys = [k.value for k in a.value.keys if isinstance(k, ast.Constant)]
-            if "lot" in keys and "run_type" in keys:
-                defaults = a
-        if short in want_run:
-            if table is not None and table[1] == want_run[short]:
-                ctx.ok("R5", f"{short}: run-type table {table[1]}", f"{wi.module.relpath}:{table[0].lineno}")
-            else:
-                ctx.violate("R5", f"{short}: run-type table is {table[1] if table else None}, documented {want_run[short]}", wi, table[0] if table else wi.node, construct="run-type table" if table is None else "")
-        if defaults is None:
-            ctx.violate("R5", f"{short}: no defaults dict with lot / obasis_name / run_type", wi, wi.node, construct="defaults dict")
-            continue
-        kv = {k.value: v for k, v in zip(defaults.value.keys, defaults.value.values) if isinstance(k, ast.Constant)}
-        for fld in ("lot", "obasis_name"):
-            v = kv.get(fld)
-            okk = isinstance(v, ast.BoolOp) and isinstance(v.op, ast.Or) and len(v.values) == 2 and src_of(v.values[0]) == f"{d}.{fld}" and isinstance(v.values[1], ast.Constant)
-            if okk and (short not in want_def or v.values[1].value == want_def[short][fld]):
-                ctx.ok("R5", f"{short}: {fld} = data.{fld} or {v.values[1].value!r}", f"{wi.module.relpath}:{defaults.lineno}", sample=False)
-            else:
-                ctx.violate("R5", f"{short}: `{fld}` is `{src_of(v) if v is not None else None}`, expected data.{fld} or the documented default", wi, defaults, construct=f"{fld} default")
-        v = kv.get("run_type")
-        tname = src_of(table[0].targets[0]) if table else "?"
-        want = f"{tname}[({d}.run_type or 'energy').lower()]"
-        if v is not None and src_of(v).replace('"', "'") == want:
-            ctx.ok("R5", f"{short}: run_type = {want}", f"{wi.module.relpath}:{defaults.lineno}")
-        else:
-            ctx.violate("R5", f"{short}: run_type is `{src_of(v) if v is not None else None}`, expected `{want}`", wi, defaults, construct="run_type lookup")
+        ctx.violate("R4", "the template is not rendered from the merged field dictionary", base, base.node, construct="render after merge")
 
     # ------------------------------------------------------------------ R6
     ctx.rule("R6", "unknown program -> FileFormatError; any rendering failure -> WriteInputError", "a raw exception (AttributeError of a template field, an error of a user callback) escapes write_input")
